@@ -13,7 +13,7 @@ open Result
 /-- exact values with a rational meaning -/
 def Exact.Rational : Exact → Prop
   | .frac _ d => 0 < d
-  | .sqrt _ => False
+  | .sqrt _ _ => False
   | _ => True
 
 theorem cmpInt_frac {n d s : Int} (hd : 0 < d) :
@@ -31,7 +31,7 @@ theorem cmpExt_spec {e : Exact} (he : e.Rational) (v : Ext Int) :
     (e.cmpExt v = some .gt ↔ Ext.lt (v.map (Int.cast : Int → Rat)) e.toQ) ∧
     (e.cmpExt v = none ↔ e = .nan ∨ v = .nan) := by
   cases e with
-  | sqrt n => exact absurd he (by simp [Exact.Rational])
+  | sqrt n d => exact absurd he (by simp [Exact.Rational])
   | frac n d =>
     have hd : 0 < d := he
     cases v with
